@@ -397,7 +397,7 @@ pub fn run(c: &mut Ctx) {
                 Ok(b) => b,
                 Err(e) => return c.inconclusive(&e),
             };
-            let j = c02::PayJudge { b: &b, context: b"c05-forger".to_vec(), prop: "C05", accepted_nonces: Default::default() };
+            let j = c02::PayJudge { b: &b, context: b"c05-forger".to_vec(), prop: "C05", accepted_nonces: Default::default(), accepted_blinded: Default::default() };
             let amt = 7i64;
             // positive control
             let tp = c02::true_plan(&b, &mut rng, amt);
